@@ -91,6 +91,12 @@ class _Handler(http.server.BaseHTTPRequestHandler):
         name = urllib.parse.unquote(urllib.parse.urlsplit(self.path).path).lstrip("/")
         rng = self.headers.get("Range")
         res = owner._lookup(name)
+        fail = owner._take_fail(name)
+        if fail:
+            owner._count(self.command, name, rng, fail)
+            self._send(fail, [("Content-Type", "text/plain")],
+                       b"temporarily unavailable", head_only)
+            return
         if res is None:
             body = b"not found"
             owner._count(self.command, name, rng, 404)
@@ -151,6 +157,7 @@ class RangeServer:
         self._lock = threading.Lock()
         self._map = {}
         self._noetag = set()
+        self._fail = {}
         self._root = None
         self._etags = {}
         self._httpd = None
@@ -174,6 +181,15 @@ class RangeServer:
                 data, (bytes, bytearray, memoryview)) else pathlib.Path(data)
             (self._noetag.discard if etag else self._noetag.add)(name)
         return self.url(name)
+
+    def fail_once(self, name, status=503):
+        """answer the next request for `name` with an error status (transient fault)"""
+        with self._lock:
+            self._fail[str(name).lstrip("/")] = int(status)
+
+    def _take_fail(self, name):
+        with self._lock:
+            return self._fail.pop(name, None)
 
     def remove(self, name):
         with self._lock:
